@@ -150,6 +150,7 @@ static int fam_kinds(int* kinds){ const char* d = STR(FAM); int ni = (int)sizeof
 #define DSHAPE CAT(CAT(k_dynshape,DIM),LISTK)
 #define DINDEX CAT(CAT(k_dynindex,DIM),LISTK)
 
+#ifndef CONSTK
 void h_fam(void){
   u64 shape[3] = {1,1,1}, idx[3] = {0,0,0}, os[3] = {0,0,0}, src[3] = {0,0,0}; i32 p[3*MAXI]; int kinds[MAXI];
   for (int a = 0; a < DIM; a++) shape[a] = in_u64(1, MAXF);
@@ -171,7 +172,9 @@ void h_fam(void){
   REACHED();
 }
 
-/* dynamic encoding (list of either<int, either<array<int,3>, ellipsis>>): the item kinds are symbolic run-time values */
+#endif
+/* dynamic encoding (list of either<int, either<array<int,3>, ellipsis>>): the item kinds are run-time values of ONE instantiation;
+ * CONSTK: they are the per-query constant FAM (all families are enumerated by props/C05.py); otherwise symbolic */
 static int in_kinds(int* kinds){
   int ni = (int)in_u64(1, DIM+1), ne = 0, nn = 0;
   for (int j = 0; j < MAXI; j++){ kinds[j] = (int)in_u64(0, 2); if (j < ni){ if (kinds[j] == 2) ne++; else nn++; } }
@@ -183,7 +186,11 @@ void h_dyn(void){
   for (int a = 0; a < DIM; a++) shape[a] = in_u64(1, MAXF);
   in_parts(p);
   for (int a = 0; a < 3; a++) idx[a] = in_u64(0, MAXF-1);
+#ifdef CONSTK
+  int ni = fam_kinds(kinds);        /* item kinds are the per-query constant FAM */
+#else
   int ni = in_kinds(kinds);
+#endif
   ref_t r = np_index(shape, kinds, ni, p);
   u64 od = DSHAPE(shape, (u32*)kinds, (u32*)p, (u64)ni, os);
   ASSERT(od == r.od, "result dim");
